@@ -104,6 +104,9 @@ def replay_violation(reg, c, d):
         d['replayed'] = bool(ok)
         d['replay'] = desc
         return
+    if d['kind'] not in ('raises_only', 'raises_iff', 'ensures', 'on_raise'):
+        # inner obligations (call-site preconditions, loop invariants, lemmas, frames) are not observable from outside
+        raise NotReplayable('obligation kind %s concerns an inner state' % d['kind'])
     w = _from_json(w)
     fi = loader.find_function(c.target)
     a = fi.node.args
